@@ -65,6 +65,89 @@ def _name(it, frame, st):
     return "%s.loop%d" % (key[0], key[1])
 
 
+def _locs(obj):
+    """the mutable locations of one heap object: key -> value"""
+    from .core import HObj, HList, HByteArray, HDict, HSet
+    if isinstance(obj, HObj):
+        return dict(obj.fields)
+    if isinstance(obj, HList):
+        d = {("i", i): v for i, v in enumerate(obj.items)}
+        d["#len"] = len(obj.items)
+        return d
+    if isinstance(obj, HByteArray):
+        return {"term": obj.term}
+    if isinstance(obj, HDict):
+        d = {("k", i): v for i, v in enumerate(obj.keys)}
+        d.update({("v", i): v for i, v in enumerate(obj.vals)})
+        d["#len"] = len(obj.keys)
+        return d
+    if isinstance(obj, HSet):
+        d = {("i", i): v for i, v in enumerate(obj.items)}
+        d["#len"] = len(obj.items)
+        return d
+    if hasattr(obj, "term"):
+        return {"term": obj.term}
+    return {}
+
+
+def _snapshot(ctx):
+    return {oid: _locs(obj) for oid, obj in ctx.heap.items()}
+
+
+def _same(a, b):
+    if a is b:
+        return True
+    if isinstance(a, (bool, int, str, bytes, type(None))) and isinstance(b, (bool, int, str, bytes, type(None))):
+        return type(a) is type(b) and a == b
+    from .core import Ref
+    if isinstance(a, Ref) and isinstance(b, Ref):
+        return a.oid == b.oid
+    return False
+
+
+def _havoc_footprint(ctx, snap0):
+    """locations the havoc functions assigned (compared by identity with the snapshot taken before)"""
+    foot = set()
+    for oid, obj in ctx.heap.items():
+        before = snap0.get(oid)
+        if before is None:
+            continue
+        now = _locs(obj)
+        for k in set(before) | set(now):
+            if k not in before or k not in now or not _same(before[k], now[k]):
+                foot.add((oid, k))
+    return foot
+
+
+def _footprint_check(it, foot, snap1, oname, tag):
+    """COMPLETENESS of the havoc: every heap location that existed at the loop head and that the
+    havoc functions did NOT assign must hold the same value after the body (proved, location by
+    location).  Without this a body write to a location that is neither havocked nor listed in the
+    frame view would make the arbitrary-iteration state too specific (a vacuous step)."""
+    ctx = it.ctx
+    for oid, before in snap1.items():
+        obj = ctx.heap.get(oid)
+        if obj is None:
+            continue
+        now = _locs(obj)
+        if (oid, None) in foot:
+            continue
+        for k in set(before) | set(now):
+            if (oid, k) in foot:
+                continue
+            if k in before and k in now and _same(before[k], now[k]):
+                continue
+            what = "%s.%s" % (type(obj).__name__ if not hasattr(obj, "cls") else obj.cls.key, k)
+            if k not in before or k not in now:
+                ctx.oblige(oname + ".footprint", False, info={"loop": tag, "location": what, "why": "location appears/disappears in the body but is not havocked"})
+                continue
+            try:
+                eq = ops.values_eq(it, before[k], now[k])
+            except Exception:
+                eq = False
+            ctx.oblige(oname + ".footprint", eq, info={"loop": tag, "location": what})
+
+
 def _frame_check(it, spec, frame, fr0, oname, tag):
     """the havoc footprint is sound only if the body leaves everything outside it unchanged"""
     if fr0 is None:
@@ -81,10 +164,18 @@ def run_while_with_invariant(it, st, frame, spec):
     oname = ctx.ghost.get("contract_name", "?") + "." + tag
     # contracts apply to the callee code only: suspend nothing -- spec code always runs inline
     ctx.oblige(oname + ".entry", ops.truthy(it, _call_spec(it, inv, frame)), info={"loop": tag})
+    if spec.entry:
+        ctx.oblige(oname + ".at_entry", ops.truthy(it, _call_spec(it, prog.func(spec.entry), frame)), info={"loop": tag})
     # havoc
+    ctx.write_log = set()
+    oid0 = ctx.next_oid
     if spec.havoc:
         for hk in spec.havoc:
             _call_spec(it, prog.func(hk), frame)
+    foot = ctx.write_log
+    ctx.write_log = None
+    for fresh_oid in range(oid0, ctx.next_oid):
+        foot.add((fresh_oid, None))       # objects the havoc functions created are theirs
     for n in _assigned_names(st):
         if n in frame.locals:
             frame.locals[n] = _havoc_local(it, n, frame.locals[n], tag)
@@ -94,6 +185,7 @@ def run_while_with_invariant(it, st, frame, spec):
     mode = SBool(z3.Bool("loopmode!%d" % ctx.fresh_n))
     step = ctx.branch(mode)
     fr0 = _call_spec(it, prog.func(spec.frame), frame) if (spec.frame and step) else None
+    snap1 = _snapshot(ctx) if step else None
     c = ops.truthy(it, it.eval(st.test, frame))
     if step:
         ctx.assume(c)
@@ -101,10 +193,12 @@ def run_while_with_invariant(it, st, frame, spec):
             it.exec_block(st.body, frame)
         except BreakSig:
             _frame_check(it, spec, frame, fr0, oname, tag)
+            _footprint_check(it, foot, snap1, oname, tag)
             return            # a break leaves the loop: execution goes on after it
         except ContinueSig:
             pass
         _frame_check(it, spec, frame, fr0, oname, tag)
+        _footprint_check(it, foot, snap1, oname, tag)
         ctx.oblige(oname + ".preserved", ops.truthy(it, _call_spec(it, inv, frame)), info={"loop": tag})
         ctx.notes.append("loop-step " + tag)
         raise PathEnd()
@@ -127,9 +221,15 @@ def run_for_with_invariant(it, st, frame, spec):
         raise Unsupported("for-loop invariant needs range() with step 1")
     n = sym.imax(0, sym.sub(rv.stop, rv.start))
     ctx.oblige(oname + ".entry", ops.truthy(it, _call_spec(it, inv, frame, {"k_": 0})), info={"loop": tag})
+    ctx.write_log = set()
+    oid0 = ctx.next_oid
     if spec.havoc:
         for hk in spec.havoc:
             _call_spec(it, prog.func(hk), frame)
+    foot = ctx.write_log
+    ctx.write_log = None
+    for fresh_oid in range(oid0, ctx.next_oid):
+        foot.add((fresh_oid, None))       # objects the havoc functions created are theirs
     for nm in _assigned_names(st):
         if nm in frame.locals:
             frame.locals[nm] = _havoc_local(it, nm, frame.locals[nm], tag)
@@ -145,14 +245,17 @@ def run_for_with_invariant(it, st, frame, spec):
         ctx.assume(sym.cmp("<", k, n))
         it.assign(st.target, sym.add(rv.start, k), frame)
         fr0 = _call_spec(it, prog.func(spec.frame), frame) if spec.frame else None
+        snap1 = _snapshot(ctx)
         try:
             it.exec_block(st.body, frame)
         except BreakSig:
             _frame_check(it, spec, frame, fr0, oname, tag)
+            _footprint_check(it, foot, snap1, oname, tag)
             return
         except ContinueSig:
             pass
         _frame_check(it, spec, frame, fr0, oname, tag)
+        _footprint_check(it, foot, snap1, oname, tag)
         ctx.oblige(oname + ".preserved", ops.truthy(it, _call_spec(it, inv, frame, {"k_": sym.add(k, 1)})), info={"loop": tag})
         ctx.notes.append("loop-step " + tag)
         raise PathEnd()
@@ -189,9 +292,15 @@ def run_foreach_with_invariant(it, st, frame, spec, coll):
         raise Unsupported("for-each invariant over %s" % type(o).__name__)
     items = list(o.items)
     ctx.oblige(oname + ".entry", ops.truthy(it, _call_spec(it, inv, frame)), info={"loop": tag})
+    ctx.write_log = set()
+    oid0 = ctx.next_oid
     if spec.havoc:
         for hk in spec.havoc:
             _call_spec(it, prog.func(hk), frame)
+    foot = ctx.write_log
+    ctx.write_log = None
+    for fresh_oid in range(oid0, ctx.next_oid):
+        foot.add((fresh_oid, None))       # objects the havoc functions created are theirs
     tnames = [n.id for n in ast.walk(st.target) if isinstance(n, ast.Name)]
     for nm in _assigned_names(st):
         if nm in frame.locals and nm not in tnames:
@@ -211,14 +320,17 @@ def run_foreach_with_invariant(it, st, frame, spec, coll):
                 break
         it.assign(st.target, pick, frame)
         fr0 = _call_spec(it, prog.func(spec.frame), frame) if spec.frame else None
+        snap1 = _snapshot(ctx)
         try:
             it.exec_block(st.body, frame)
         except BreakSig:
             _frame_check(it, spec, frame, fr0, oname, tag)
+            _footprint_check(it, foot, snap1, oname, tag)
             return
         except ContinueSig:
             pass
         _frame_check(it, spec, frame, fr0, oname, tag)
+        _footprint_check(it, foot, snap1, oname, tag)
         ctx.oblige(oname + ".preserved", ops.truthy(it, _call_spec(it, inv, frame)), info={"loop": tag})
         ctx.notes.append("loop-step " + tag)
         raise PathEnd()
